@@ -2,6 +2,7 @@
   C10 (area wal) — the WAL parsers never fault, for every byte string (and every directory content).
 -/
 import PgVerif.Proofs.Wal
+import PgVerif.Model.WalOrig
 namespace PgVerif.Props.C10.Wal
 open PgVerif PgVerif.Model.Wal PgVerif.Proofs.Wal
 
@@ -14,9 +15,15 @@ theorem C10_total_parseBlockRefs (data : Bytes) (magic : Nat) : ∃ r, parseBloc
 theorem C10_total_parseXLogRecord (data : Bytes) (lsn magic : Nat) : ∃ r, parseXLogRecord data lsn magic = .ok r :=
   parseXLogRecord_total data lsn magic
 
-/-- parseWALPage returns (records, or the "skip this page" error) for every byte string of any length. -/
-theorem C10_total_parseWALPage (data : Bytes) : ∃ r, parseWALPage data = .ok r :=
-  parseWALPage_total data
+/-- continuationData (the reassembly of a record cut by a page end, fixes/wal/04) returns — the continuation
+bytes or nil — for every byte string standing for the following pages and every number of bytes needed. -/
+theorem C10_total_continuationData (following : Bytes) (need : Nat) : ∃ r, continuationData following need = .ok r :=
+  continuationData_total following need
+
+/-- parseWALPage returns (records, or the "skip this page" error) for every byte string of any length as the
+page and every byte string as the pages that follow it. -/
+theorem C10_total_parseWALPage (data following : Bytes) : ∃ r, parseWALPage data following = .ok r :=
+  parseWALPage_total data following
 
 /-- ParseWALFile returns for every byte string: whatever a segment file contains, no page and no record in
 it can make the parser fault. -/
@@ -27,15 +34,18 @@ theorem C10_total_parseWALFile (data : Bytes) : ∃ r, parseWALFile data = .ok r
 theorem C10_total_scanWALDirectory (dir : Dir) : ∃ r, scanWALDirectory dir = .ok r :=
   scanWALDirectory_total dir
 
-/-- GetRecentWALRecords returns for every directory content and every limit ≥ 0. -/
-theorem C10_total_getRecentWALRecords (dir : Dir) (limit : Int) (h : 0 ≤ limit) :
+/-- GetRecentWALRecords returns for every directory content and EVERY limit (a Go int, negative values included:
+fixes/entry/01 clamps them to 0). -/
+theorem C10_total_getRecentWALRecords (dir : Dir) (limit : Int) :
     ∃ r, getRecentWALRecords dir limit = .ok r :=
-  getRecent_total dir limit h
+  getRecent_total dir limit
 
-/-- The hypothesis `0 ≤ limit` cannot be dropped: with a negative limit `allRecords[len(allRecords)-limit:]`
-is out of range even for an empty directory (replayed on the real code: `impl-wal one waldir -1` panics with
-"slice bounds out of range").  The limit is a caller-supplied parameter, not file content; no caller in
-pgread passes a negative one. -/
-theorem C10_getRecentWALRecords_negative_limit : getRecentWALRecords [] (-1) = .error .slice := by rfl
+/-- What fixes/entry/01 repaired: before it (Model/WalOrig.lean `getRecentWALRecords`, the same code without the
+clamp) a negative limit made `allRecords[len(allRecords)-limit:]` go out of range even for an empty directory
+(replayed on the then code: `impl-wal one waldir -1` panicked with "slice bounds out of range"); with the clamp the
+same call returns no records. -/
+theorem C10_getRecentWALRecords_negative_limit_before_fix :
+    Model.WalOrig.getRecentWALRecords [] (-1) = .error .slice ∧ getRecentWALRecords [] (-1) = .ok [] := by
+  constructor <;> rfl
 
 end PgVerif.Props.C10.Wal
